@@ -1,5 +1,6 @@
 import JmesVerif.Lemmas.Compositional
 import JmesVerif.Props.C03
+import JmesVerif.Lemmas.InterpEquiv
 /-!
 # C11 — evaluation is compositional: compound expressions mean what their parts mean
 
@@ -36,6 +37,23 @@ theorem C11_pipe_parse (eL eR : Expr) (hL : eL.Legal 0) (hR : eR.Legal 0) (ts : 
   rw [ha]
   simp [e, Expr.ast, Nud.ast, Led.ast, ledsAst]
 
+
+/-! ### the evaluator as re-translated from interpreter.rs on every run
+
+`Generated/InterpCode.lean` is written by `tools/rs2lean.py` from the whole body of `interpret` — all 18 arms, every `for` loop, the
+`?` propagation and the reads and writes of `ctx.offset` — with the library calls mapped by a fixed, documented idiom table.  The model
+`interp` that every evaluation theorem (C01, C02, C05, C11, C12) is about is proved EQUAL to that translation: for every budget, value, tree
+whose index / slice literals are `i32`s (`Ast.I32Ok`; the lexer produces nothing else) and offset — outright when slicing is done by a function
+that agrees with the model's on arrays of up to `i32::MAX` elements (`sliceGuarded`), and for the translated `slice` itself whenever no array
+longer than `i32::MAX` is sliced during the evaluation (`SlicesOk`).  A semantic edit of any arm changes the translation and breaks this proof. -/
+open Generated.InterpCode in
+theorem C11_translated_interpreter (rt : Registry) :
+    (∀ fuel d a off, a.I32Ok = true →
+        interpret sliceGuarded rt.get (callFn rt) fuel d a off = interp rt fuel d a off) ∧
+    (∀ fuel d a off, a.I32Ok = true → SlicesOk rt fuel d a off →
+        interpret slice_rs rt.get (callFn rt) fuel d a off = interp rt fuel d a off) :=
+  ⟨gen_interpret_eq_guarded rt, gen_interpret_eq rt⟩
+
 end JmesVerif
 
 #print axioms JmesVerif.C11_offset_irrelevant
@@ -52,3 +70,4 @@ end JmesVerif
 #print axioms JmesVerif.C11_or
 #print axioms JmesVerif.C11_comparison
 #print axioms JmesVerif.C11_objectValues
+#print axioms JmesVerif.C11_translated_interpreter
